@@ -40,7 +40,11 @@ l=sys.stdin.read()
 if not l.startswith('LRV-RESULT '): print('MUTANT $name $p: no result'); sys.exit()
 r=json.loads(l[11:])
 if r.get('kind')=='stall': print('MUTANT $name $p: STALL', r['stalls']); sys.exit()
-v=r['violations']
+import fnmatch
+kf=[e['signature'] for e in json.load(open('/verif/known_findings.json'))['findings'] if str(e.get('status','')).startswith('open')]
+def known(sig):
+    return any((sig.startswith(k[:-1]) if k.endswith('*') else sig==k) for k in kf)
+v=[x for x in r['violations'] if not known(x['sig'])]
 print('MUTANT $name $p:', 'CAUGHT' if v else 'missed', len(v), 'signatures;', 'harness_panic' if r['events'].get('harness_panic') else '', r.get('wall_s'))
 for x in v[:${MUT_SHOW:-4}]: print('   ', x['sig'], 'x%d' % x['count'])
 "
